@@ -131,6 +131,11 @@ impl ReplicaSpec {
         }
     }
 
+    /// the files of this transport carry no release version (hp.obo rendered without its header block)
+    pub fn omits_version(&self) -> bool {
+        (matches!(self.path, PathKind::Text | PathKind::TextTransitive) && self.text.no_obo_header) || self.inner.as_ref().map_or(false, |i| i.omits_version())
+    }
+
     pub fn uses_text(&self) -> bool {
         matches!(self.path, PathKind::Text | PathKind::TextTransitive) || self.inner.as_ref().map_or(false, |i| i.uses_text())
     }
